@@ -47,4 +47,7 @@ GROUPS = [
           functions=["QSexact_solver", "QSexact_basis_status"], props=["C01", "C02"],
           note="precision ladder completely unwound (QS_EXACT_MAX_ITER + 2, unwinding assertions on)",
           assumed=[GATING_ASSUMED]),
+    Group("exact/output", "exact_gating.c", tus=["exact.c"], model=MODEL, defines=["FN_output_copy"], dfcc=False, export_static=True, unwind=4, kind="bounded",
+          bound="vector length 2 (size-header arrays need a compile-time length); loops completely unwound", functions=["optimal_output", "infeasible_output"], props=["C01", "C02", "C17"],
+          assumed=["exact/output: static functions called through goto-cc --export-file-local-symbols"]),
 ]
